@@ -37,7 +37,7 @@ func TestDev(t *testing.T) {
 	cnt := &counters{}
 	debug.SetGCPercent(400)
 	st := explore.Run(body(t, cfg, cnt, os.Getenv("C11_TRACE") != "", nil), explore.Options{Budget: bud, Workers: workers, Deadline: time.Now().Add(10 * time.Minute), MaxDepth: 2000, Setup: func(int) any { return &workerData{codec: newGobCodec()} }, Samples: 2})
-	fmt.Printf("%s: executions=%d pruned=%d outcomes=%d maxdepth=%d exhaustive=%v cap=%q div=%d wall=%.1fs steps=%d stuck=%d stale=%d probeFail=%d/%d states=%d\n", cfg.name(), st.Executions, st.Pruned, st.Outcomes, st.MaxDepthSeen, st.Exhaustive, st.CapHit, st.Divergences, st.WallS, cnt.steps.Load(), cnt.teardownStuck.Load(), cnt.staleAcceptDecided.Load(), cnt.probeNodeFailed.Load(), cnt.probeRuns.Load(), cnt.statesExpanded.Load())
+	fmt.Printf("%s: executions=%d pruned=%d outcomes=%d maxdepth=%d exhaustive=%v cap=%q div=%d wall=%.1fs steps=%d stuck=%d probeFail=%d/%d states=%d\n", cfg.name(), st.Executions, st.Pruned, st.Outcomes, st.MaxDepthSeen, st.Exhaustive, st.CapHit, st.Divergences, st.WallS, cnt.steps.Load(), cnt.teardownStuck.Load(), cnt.probeNodeFailed.Load(), cnt.probeRuns.Load(), cnt.statesExpanded.Load())
 	for o, n := range st.OutcomeHist {
 		fmt.Printf("  outcome x%d: %s\n", n, o)
 	}
